@@ -122,12 +122,13 @@ def stdAbs (w : Nat) (v : Int) : Outcome Int :=
     `-` for negatives (from `format_numeric_prefix`), then the digits -/
 def signThen (negative : Bool) (digits : List Nat) : List Nat := (if negative then [45] else []) ++ digits
 
-/-- `_ST_PRIVATE::format_numeric_s<int_T>`:
-    `formatter.format(static_cast<uint_T>(std::abs(value)), radix, upper_case)` (st_format_priv.h:153) -/
+/-- `_ST_PRIVATE::format_numeric_s<int_T>` (as repaired: the magnitude is computed by unsigned negation,
+    `abs_value = value < 0 ? 0 - static_cast<uint_T>(value) : static_cast<uint_T>(value)`, as in
+    `mini_format_int_s`; the pinned tree's `std::abs` version is `Pinned.formatNumericS` below) -/
 def formatNumericS (w : Nat) (dc : DigitClass) (value : Int) : Outcome (List Nat) := do
   let (radix, upper) ← radixOf dc
-  let a ← stdAbs w value
-  let f ← uintFormat w (wrapW w a) radix upper
+  let absValue : Nat := if value < 0 then wrapW w (0 - (wrapW w value : Int)) else wrapW w value
+  let f ← uintFormat w absValue radix upper
   pure (signThen (value < 0) (f.copy w))
 
 /-- `_ST_PRIVATE::format_numeric_u<uint_T>` -/
@@ -140,11 +141,12 @@ def formatNumericU (w : Nat) (dc : DigitClass) (value : Nat) : Outcome (List Nat
 def formatInt (t : IntTy) (dc : DigitClass) (v : Int) : Outcome (List Nat) :=
   if t.signed then formatNumericS t.bits dc v else formatNumericU t.bits dc v.toNat
 
-/-- `string_stream::operator<<(int / long / long long)`:
-    `formatter.format(std::abs(num), 10, false); if (num < 0) append_char('-'); append(text, size)` -/
+/-- `string_stream::operator<<(int / long / long long)` (as repaired):
+    `formatter.format(num < 0 ? 0 - static_cast<uint_T>(num) : static_cast<uint_T>(num), 10, false);
+     if (num < 0) append_char('-'); append(text, size)` -/
 def streamSigned (w : Nat) (num : Int) : Outcome (List Nat) := do
-  let a ← stdAbs w num
-  let f ← uintFormat w (wrapW w a) 10 false
+  let absValue : Nat := if num < 0 then wrapW w (0 - (wrapW w num : Int)) else wrapW w num
+  let f ← uintFormat w absValue 10 false
   pure (signThen (num < 0) (f.copy w))
 
 /-- `string_stream::operator<<(unsigned int / unsigned long / unsigned long long)` -/
@@ -157,6 +159,27 @@ def streamInt (t : IntTy) (v : Int) : Outcome (List Nat) :=
   if t.signed then streamSigned (max t.bits 32) v
   else if t.bits < 32 then streamSigned 32 v      -- unsigned short / unsigned char promote to int
   else streamUnsigned t.bits v.toNat
+
+/-! #### the pinned tree before the repair of defect #12: `std::abs`
+
+Kept so that the witness theorems (`Props/C12`: `pinned_format_ub_witness`, `pinned_stream_ub_witness`)
+say what was wrong; nothing else refers to these. -/
+namespace Pinned
+
+/-- `formatter.format(static_cast<uint_T>(std::abs(value)), radix, upper_case)` (st_format_priv.h:153 of bfef877) -/
+def formatNumericS (w : Nat) (dc : DigitClass) (value : Int) : Outcome (List Nat) := do
+  let (radix, upper) ← radixOf dc
+  let a ← stdAbs w value
+  let f ← uintFormat w (wrapW w a) radix upper
+  pure (signThen (value < 0) (f.copy w))
+
+/-- `formatter.format(std::abs(num), 10, false)` in `string_stream::operator<<(int/long/long long)` -/
+def streamSigned (w : Nat) (num : Int) : Outcome (List Nat) := do
+  let a ← stdAbs w num
+  let f ← uintFormat w (wrapW w a) 10 false
+  pure (signThen (num < 0) (f.copy w))
+
+end Pinned
 
 /-! ### glibc `strtol` / `strtoul` (LP64: also `strtoll` / `strtoull`) -/
 
@@ -194,30 +217,34 @@ structure Scan where
 /-- the C string a `const char*` reader sees: the units before the first NUL -/
 def cstr (s : List Nat) : List Nat := s.takeWhile (· != 0)
 
+/-- `if (*s == '-') { negative = 1; ++s; } else if (*s == '+') ++s;` : (negative, characters skipped) -/
+def signAt (c0 : Nat) : Bool × Nat :=
+  if c0 = 45 then (true, 1) else if c0 = 43 then (false, 1) else (false, 0)
+
+/-- prefix recognition / base detection on the text after the sign: (effective base, characters skipped) -/
+def basePrefix (base : Nat) (s2 : List Nat) : Nat × Nat :=
+  if s2.head? = some 48 then
+    if (base = 0 ∨ base = 16) ∧ toUpper (s2.getD 1 0) = 88 then (16, 2)
+    else if base = 0 then (8, 0) else (base, 0)
+  else if base = 0 then (10, 0) else (base, 0)
+
 /-- common part of `____strtol_l_internal` on the C string `s`, `base ∈ {0} ∪ [2, 36]` -/
 def strtoScan (s : List Nat) (base : Nat) : Scan :=
   -- while (ISSPACE(*s)) ++s;
   let p0 := (s.takeWhile isSpace).length
-  let s1 := s.drop p0
-  match s1 with
+  match s.drop p0 with
   | [] => { negative := false, i := 0, overflow := false, endp := 0, conv := false }   -- *s == '\0' → noconv (save = nptr)
   | c0 :: _ =>
-    -- sign
-    let (negative, p1) : Bool × Nat := if c0 = 45 then (true, p0 + 1) else if c0 = 43 then (false, p0 + 1) else (false, p0)
-    let s2 := s.drop p1
-    -- prefix / base detection
-    let (base', p2) : Nat × Nat :=
-      if s2.head? = some 48 then
-        if (base = 0 ∨ base = 16) ∧ toUpper (s2.getD 1 0) = 88 then (16, p1 + 2)
-        else if base = 0 then (8, p1) else (base, p1)
-      else if base = 0 then (10, p1) else (base, p1)
-    let save := p2
-    let (i, overflow, n) := strtoLoop base' (ULONG_MAX / base') (ULONG_MAX % base') (s.drop p2) 0 false 0
-    if n = 0 then
+    let sg := signAt c0
+    let p1 := p0 + sg.2
+    let bp := basePrefix base (s.drop p1)
+    let save := p1 + bp.2
+    let r := strtoLoop bp.1 (ULONG_MAX / bp.1) (ULONG_MAX % bp.1) (s.drop save) 0 false 0
+    if r.2.2 = 0 then
       -- noconv: "0x" followed by no hexadecimal digit leaves endptr at the 'x'
       let endp := if save ≥ 2 ∧ toUpper (s.getD (save - 1) 0) = 88 ∧ s.getD (save - 2) 0 = 48 then save - 1 else 0
       { negative := false, i := 0, overflow := false, endp, conv := false }
-    else { negative, i, overflow, endp := save + n, conv := true }
+    else { negative := sg.1, i := r.1, overflow := r.2.1, endp := save + r.2.2, conv := true }
 
 structure StrtoRes (α : Type) where
   value : α
